@@ -49,6 +49,8 @@ ASSUMPTIONS = [
     'query-string numbers are plain decimal integers; strings such as " 12", "+3", "1_000" (accepted by int()) are not sent',
     'settings.core.history_support is held at True (switching the feature off is outside the property); the log level of the '
     'qtoggleserver loggers, settings.debug and settings.core.history_janitor_interval vary per sequence',
+    'a port whose type / `integer` attribute changes IN PLACE while by-timestamp answers are cached keeps the cached values '
+    'typed the old way (not generated: ports change kind only by removal with their history and re-adding under the same id)',
     'the periodic sampling task and the retention janitor are not modelled (the janitor deletes through the same '
     'remove_samples as DELETE); background removal (port removal) is not modelled',
     'among samples with equal timestamps the in-memory JSON driver answers in insertion order (strict oracle); other '
@@ -372,17 +374,29 @@ async def run_impl(impl, cases, driver_kind='json'):
         impl.core_events.register_handler(impl.handler)
     impl.persist._thread_local.driver = await impl.make_driver(driver_kind)
     ports = {}
-    specs = []
-    for num, (name, kind) in PORTS.items():
-        cls = impl.BoolPort if kind == 'KBool' else impl.NumPort
-        args = {'driver': cls, 'port_id': name}
+    kinds = {}
+
+    async def make_port(num, kind):
+        """register a harness port of the given kind under the id of port `num`"""
+        args = {'driver': impl.BoolPort if kind == 'KBool' else impl.NumPort, 'port_id': PORTS[num][0]}
         if kind == 'KInt':
             args['integer'] = True
-        specs.append(args)
-    loaded = await impl.core_ports.load(specs)
-    for num, port in zip(PORTS, loaded):
+        port = (await impl.core_ports.load([args]))[0]
         await port.enable()
-        ports[num] = port
+        ports[num], kinds[num] = port, kind
+        return port
+
+    async def drop_port(num):
+        port = ports[num]
+        try:
+            await port.remove(persisted_data=False)
+        except (Exception, asyncio.CancelledError):  # noqa: BLE001  (the cancelled write task is re-raised by cleanup)
+            pass
+        impl.core_ports._ports_by_id.pop(port.get_id(), None)
+        return port
+
+    for num, (name, kind) in PORTS.items():
+        await make_port(num, kind)
     results = []
     try:
         for case in cases:
@@ -392,6 +406,10 @@ async def run_impl(impl, cases, driver_kind='json'):
             del h._pending_remove_samples[:]
             Clock.now_ms = case['now0']
             apply_settings(impl, case.get('settings') or {})
+            for num in PORTS:
+                if kinds[num] != PORTS[num][1]:          # a previous sequence left another port under this id
+                    await drop_port(num)
+                    await make_port(num, PORTS[num][1])
             for num, port in ports.items():
                 port._history_interval = -1 if case['on_change'].get(str(num)) else 0
                 port.set_last_read_value(None)
@@ -412,11 +430,22 @@ async def run_impl(impl, cases, driver_kind='json'):
                         out = await impl.api_ports.delete_port_history(
                             impl.request('DELETE', OID_NAMES[req['port']], req['query']), OID_NAMES[req['port']])
                         return canon_response(req, out, None, impl)
+                    if req['op'] == 'retype':
+                        # the port goes away together with its history (what the janitor does for a removed port) and a new
+                        # port of another kind is added under the same id
+                        old_port = await drop_port(req['port'])
+                        await h.remove_samples([old_port])
+                        new_port = await make_port(req['port'], req['kind'])
+                        new_port._history_interval = -1 if case['on_change'].get(str(req['port'])) else 0
+                        new_port.invalidate_attrs()
+                        return ['none']
                     if req['op'] == 'change':
                         port = ports[req['port']]
-                        kind = PORTS[req['port']][1]
+                        kind = kinds[req['port']]
                         q = req['value']
                         new = None if q is None else (bool(q) if kind == 'KBool' else (q // 4 if kind == 'KInt' else q / 4))
+                        # what the port's value really is, in quarters (a boolean port turns 5.0 into True = 1.0)
+                        req['value'] = None if new is None else int(float(new) * 4)
                         old = port.get_last_read_value()
                         port.set_last_read_value(new)
                         before = set(impl.event_handlers._active_handle_tasks)
@@ -470,11 +499,12 @@ async def run_impl(impl, cases, driver_kind='json'):
             next_id = 1
             for index, req in enumerate(case['requests']):
                 if req['op'] != 'overlap':
+                    req = dict(req)
                     await observe(['seq'], req, index, await execute(req))
                     continue
                 parts = []
                 for r in req['parts']:
-                    parts.append(Part(next_id, r))
+                    parts.append(Part(next_id, dict(r)))
                     next_id += 1
                 order = [i for i in req['schedule'] if 0 <= i < len(parts)]
                 for i in order + [i for i in range(len(parts)) for _ in range(3)]:
@@ -570,18 +600,31 @@ def c_event(o):
 
 
 def c_case(case, obs, impl):
-    cfg = '(CFG %s)' % ' '.join(coq.boolean(bool(case['on_change'].get(str(p)))) for p in PORTS)
-    steps = coq.lst(obs, lambda o: '(%s, %s)' % (c_event(o), c_obs(o)))
+    kinds = {p: PORTS[p][1] for p in PORTS}
+
+    def c_cfg():
+        return '(CFG %s %s)' % (' '.join(kinds[p] for p in PORTS),
+                                ' '.join(coq.boolean(bool(case['on_change'].get(str(p)))) for p in PORTS))
+
+    cfg = c_cfg()
+
+    def c_step(o):
+        if o['req']['op'] == 'retype':
+            kinds[o['req']['port']] = o['req']['kind']
+            return '(RT %d %s, %s)' % (o['req']['port'], c_cfg(), c_obs(o))
+        return '(%s, %s)' % (c_event(o), c_obs(o))
+
+    steps = coq.lst(obs, c_step)
     return 'CASE %s %s %s\n   %s' % (cfg, coq.lst(case['store'], c_sample), c_int(case['now0']), steps)
 
 
 def header(impl):
     """shard preamble: the configuration (constants read from the imported modules)"""
-    ports = '; '.join('(%d, (%s, b%d))' % (p, PORTS[p][1], p) for p in PORTS)
+    ports = '; '.join('(%d, (k%d, b%d))' % (p, p, p) for p in PORTS)
     return (
         'From Coq Require Import Uint63.\nFrom QT Require Import C18.Lit.\n'
-        'Definition CFG (%s : bool) : config :=\n  {| cfg_ports := [%s]%%Z; cfg_min_age := %s%%Z; cfg_real_ms := %s%%Z |}.\n' % (
-            ' '.join('b%d' % p for p in PORTS), ports, coq.z(impl.min_age), coq.z(impl.real_ms))
+        'Definition CFG (%s : kind) (%s : bool) : config :=\n  {| cfg_ports := [%s]%%Z; cfg_min_age := %s%%Z; cfg_real_ms := %s%%Z |}.\n' % (
+            ' '.join('k%d' % p for p in PORTS), ' '.join('b%d' % p for p in PORTS), ports, coq.z(impl.min_age), coq.z(impl.real_ms))
         + 'Open Scope uint63_scope.\n'
     )
 
@@ -732,6 +775,27 @@ def gen_case(rng, min_age, overlaps=True):
             ms = rng.choice([0, 1, 2, 1000, min_age - 1, min_age, min_age + 1, min_age + 1500, 2 * min_age, rng.randint(0, 3 * min_age)])
             clock += ms
             requests.append({'op': 'tick', 'ms': ms})
+    if rng.random() < 0.18:
+        # the port is replaced by a port of another kind under the same id; it was queried before (so that anything the
+        # code remembers about the id is there), records new samples afterwards and is queried again
+        p = focus if rng.random() < 0.8 else rng.choice([1, 2, 3, 4])
+        new_kind = rng.choice([k for k in ('KNum', 'KInt', 'KBool') if k != PORTS[p][1]])
+        far = now0 + 10 ** 9
+        before = [{'op': 'get', 'port': p, 'query': {'from': '0'}}] if rng.random() < 0.6 else \
+            [{'op': 'get', 'port': p, 'query': {'timestamps': '%d,%d' % (rng.choice(pool), far)}}]
+        block = before + [{'op': 'retype', 'port': p, 'kind': new_kind}]
+        for _ in range(rng.choice([1, 2, 2, 3])):
+            block.append({'op': 'change', 'port': p, 'value': rng.choice([10, 29, 6, -15, 1, 4, 0, rng.randint(-40, 80)])})
+            if rng.random() < 0.5:
+                block.append({'op': 'tick', 'ms': rng.choice([1, 1000, 5000])})
+        block.append({'op': 'get', 'port': p, 'query': {'from': '0'}})
+        block.append({'op': 'get', 'port': p, 'query': {'timestamps': '%d,%d' % (far, rng.choice(pool))}})
+        if rng.random() < 0.3:
+            block.append({'op': 'retype', 'port': p, 'kind': PORTS[p][1]})
+            block.append({'op': 'change', 'port': p, 'value': rng.randint(-40, 80)})
+            block.append({'op': 'get', 'port': p, 'query': {'from': '0'}})
+        at = rng.randint(0, len(requests))
+        requests[at:at] = block
     if overlaps and rng.random() < 0.4:
         for _ in range(rng.choice([1, 1, 2])):
             block = gen_overlap(rng, min_age, now0, focus, store, pool, tspool)
@@ -836,6 +900,9 @@ def describe_request(r):
         return 'DELETE /ports/%s/history?%s' % (OID_NAMES[r['port']], '&'.join('%s=%s' % kv for kv in r['query'].items()))
     if r['op'] == 'change':
         return 'value of %s changes to %s' % (OID_NAMES[r['port']], None if r['value'] is None else r['value'] / 4)
+    if r['op'] == 'retype':
+        return 'port %s is removed with its history and added again as a %s port' % (
+            OID_NAMES[r['port']], {'KBool': 'boolean', 'KInt': 'number (integer)', 'KNum': 'number'}[r['kind']])
     if r['op'] == 'overlap':
         return 'overlapping requests %s, segments run in the order %s' % (
             [describe_request(x) for x in r['parts']], r['schedule'])
@@ -873,6 +940,8 @@ def classify(case, obs, step):
         key['overlapping'] = True
     elif any(x['event'][0] != 'seq' for x in obs[:step]):
         key['after_overlap'] = True      # a request that runs alone, after requests overlapped earlier in the sequence
+    if any(x['req']['op'] == 'retype' and x['req']['port'] == req.get('port') for x in obs[:step]):
+        key['after_port_replaced'] = True
     return key
 
 
